@@ -506,3 +506,49 @@ func MutateTokens(toks []RTok, r *rand.Rand, pool []string) ([]RTok, string) {
 		return out, "insert@" + strconv.Itoa(i)
 	}
 }
+
+// trickyStrings: string VALUES every string-carrying check writes in every
+// spelling (stringSpellings): characters the lexer treats specially in one
+// spelling but not another (U+FFFD raw vs escaped, Latin-1 code points as
+// \u00XX escapes, Unicode spaces where block-string indentation is counted).
+var trickyStrings = append([]string{"\ufffd", "x\ufffdy", "caf\u00e9", "\u00ff\u0080", "\u3000a\n\u3000b", "\u00a0x\n\u00a0y", "\u2003em\n\u2003\u2003em", "a\n\u3000b", "\u2028a\n\u2028b", "\u0085n\n\u0085m",
+	"0x1F", "1_000", "RED%", "%s%d%v", "100%"}, qUnicodeStrings...)
+
+func quoteEscaped(s string) string {
+	var b strings.Builder
+	b.WriteByte('"')
+	for _, c := range s {
+		switch {
+		case c == '"':
+			b.WriteString(`\"`)
+		case c == '\\':
+			b.WriteString(`\\`)
+		case c < 0x20 || c >= 0x7f && c <= 0xffff:
+			fmt.Fprintf(&b, `\u%04x`, c)
+		default:
+			b.WriteRune(c)
+		}
+	}
+	b.WriteByte('"')
+	return b.String()
+}
+
+// stringSpellings: every way this module writes the string value v in a
+// document: quoted with the characters raw, quoted with every non-ASCII
+// character of the basic plane escaped, and (when the value allows) the three
+// block-string layouts. All denote v.
+func stringSpellings(v string) []string {
+	out := []string{quoteGraphQL(v, nil)}
+	if e := quoteEscaped(v); e != out[0] {
+		out = append(out, e)
+	}
+	if blockable(v) {
+		out = append(out, `"""`+v+`"""`)
+	}
+	if v != "" && blockLines(v) {
+		body := strings.ReplaceAll(v, `"""`, `\"""`)
+		out = append(out, "\"\"\"\n"+body+"\n\"\"\"")
+		out = append(out, "\"\"\"\n    "+strings.ReplaceAll(body, "\n", "\n    ")+"\n  \"\"\"")
+	}
+	return out
+}
